@@ -544,3 +544,1162 @@ Proof.
     rewrite startswith_nil in *. exact Hcwd. }
   rewrite Ha, Hcwd, os_comps_snoc_slash. reflexivity.
 Qed.
+
+(* ================================================================== *)
+(* D. the model is textual substitution with the code's line reader    *)
+(* ================================================================== *)
+
+(* how the code reads a line: which lines it takes for INCLUDE lines and the
+   name (or IndexError) it extracts *)
+Definition code_reader (l : str) : option (res str) :=
+  if starts_include l then Some (get_include_filename l) else None.
+
+(* one line of Spec.subst_by *)
+Definition subst_line (read : place -> option str) (reader : str -> option (res str)) (base : place)
+           (budget : nat) (l : str) : res str :=
+  match reader l with
+  | None => Ok l
+  | Some r =>
+      match budget with
+      | O => Err PyValueError
+      | S b =>
+          do name <- r;
+          match read (locate base name) with
+          | None => Err PyIOError
+          | Some t => subst_by read reader base b t
+          end
+      end
+  end.
+
+Lemma subst_by_eq read reader base budget text :
+  subst_by read reader base budget text =
+    do ls <- mapM (subst_line read reader base budget) (lines_of text); Ok (unlines ls).
+Proof. destruct budget; reflexivity. Qed.
+
+Section Main.
+  Variable fs : fsys.
+  Variable cwd fn : str.
+  Hypothesis Hcwd : isabs cwd = true.
+
+  Lemma model_is_subst_by :
+    forall budget text, (budget <= 5)%nat ->
+      load_includes_fuel fs cwd fn (S budget) text (5 - budget) =
+        subst_by (text_of fs) code_reader (locate (locate [] cwd) (folder_text fn)) budget text.
+  Proof.
+    induction budget as [|b IH]; intros text Hb;
+      rewrite load_includes_fuel_step, subst_by_eq, lines_of_split.
+    - rewrite (mapM_ext _ (subst_line (text_of fs) code_reader (locate (locate [] cwd) (folder_text fn)) 0)).
+      + destruct (mapM _ _); cbn [bind]; [rewrite unlines_join|]; reflexivity.
+      + intros l _. unfold expand_line, subst_line, code_reader.
+        destruct (starts_include l); reflexivity.
+    - rewrite (mapM_ext _ (subst_line (text_of fs) code_reader (locate (locate [] cwd) (folder_text fn)) (S b))).
+      + destruct (mapM _ _); cbn [bind]; [rewrite unlines_join|]; reflexivity.
+      + intros l _. unfold expand_line, subst_line, code_reader.
+        destruct (starts_include l); [|reflexivity].
+        destruct (Nat.eqb_spec (5 - S b) 5) as [E|_]; [lia|].
+        destruct (get_include_filename l) as [inc|e]; cbn [bind]; [|reflexivity].
+        unfold open_file. rewrite include_path_location by exact Hcwd.
+        destruct (text_of fs _) as [t|]; cbn [bind]; [|reflexivity].
+        replace (S (5 - S b)) with (5 - b)%nat by lia. apply IH. lia.
+  Qed.
+End Main.
+
+Theorem includes_are_substitution_by_code_reader fs cwd text fn :
+  isabs cwd = true ->
+  load_includes fs cwd text fn =
+    subst_by (text_of fs) code_reader (root_folder cwd fn) 5 text.
+Proof.
+  intros Hcwd. unfold load_includes. rewrite root_folder_default by exact Hcwd.
+  apply (model_is_subst_by fs cwd (default_fn cwd fn) Hcwd 5%nat text). lia.
+Qed.
+
+(* at every nesting level the same base folder is used *)
+Theorem root_relative_at_every_depth fs cwd fn nested text :
+  isabs cwd = true -> (nested <= 5)%nat ->
+  load_includes_fuel fs cwd (default_fn cwd fn) (6 - nested) text nested =
+    subst_by (text_of fs) code_reader (root_folder cwd fn) (5 - nested) text.
+Proof.
+  intros Hcwd Hn. rewrite root_folder_default by exact Hcwd.
+  replace (6 - nested)%nat with (S (5 - nested)) by lia.
+  replace nested with (5 - (5 - nested))%nat at 2 by lia.
+  apply model_is_subst_by; [exact Hcwd|lia].
+Qed.
+
+(* ================================================================== *)
+(* E. totality, the depth bound, error kinds                           *)
+(* ================================================================== *)
+
+Lemma mapM_Err {A B} (f : A -> res B) l e :
+  mapM f l = Err e -> exists x, In x l /\ f x = Err e.
+Proof.
+  induction l as [|x l IH]; cbn [mapM bind]; [discriminate|].
+  destruct (f x) as [y|e'] eqn:E; cbn [bind].
+  - destruct (mapM f l) as [ys|e'']; cbn [bind]; [discriminate|].
+    intros [= ->]. destruct (IH eq_refl) as (x' & Hin & Hx). exists x'. split; [right|]; assumption.
+  - intros [= ->]. exists x. split; [left; reflexivity|exact E].
+Qed.
+
+Lemma mapM_Ok_iff {A B} (f : A -> res B) l :
+  (exists r, mapM f l = Ok r) <-> Forall (fun x => exists y, f x = Ok y) l.
+Proof.
+  induction l as [|x l IH]; cbn [mapM bind].
+  - split; [constructor|exists []; reflexivity].
+  - split.
+    + intros (r & H). destruct (f x) as [y|e] eqn:E; cbn [bind] in H; [|discriminate].
+      destruct (mapM f l) as [ys|e]; cbn [bind] in H; [|discriminate].
+      constructor; [exists y; exact E|]. apply IH. exists ys. reflexivity.
+    + intros H. inversion H as [|? ? (y & Hy) Hl]; subst. apply IH in Hl. destruct Hl as (ys & Hys).
+      exists (y :: ys). rewrite Hy. cbn [bind]. rewrite Hys. reflexivity.
+Qed.
+
+Lemma mapM_Forall2 {A B} (f : A -> res B) l r :
+  mapM f l = Ok r -> Forall2 (fun x y => f x = Ok y) l r.
+Proof.
+  revert r; induction l as [|x l IH]; intros r; cbn [mapM bind]; [intros [= <-]; constructor|].
+  destruct (f x) as [y|e] eqn:E; cbn [bind]; [|discriminate].
+  destruct (mapM f l) as [ys|e]; cbn [bind]; [|discriminate].
+  intros [= <-]. constructor; [exact E|]. apply IH. reflexivity.
+Qed.
+
+(* the first failing line decides *)
+Lemma mapM_first_Err {A B} (f : A -> res B) pre x post e :
+  Forall (fun z => exists y, f z = Ok y) pre -> f x = Err e -> mapM f (pre ++ x :: post) = Err e.
+Proof.
+  induction pre as [|z pre IH]; intros Hpre Hx; cbn [app mapM bind].
+  - rewrite Hx. reflexivity.
+  - inversion Hpre as [|? ? (y & Hy) Hp]; subst. rewrite Hy. cbn [bind]. rewrite IH by assumption.
+    reflexivity.
+Qed.
+
+Lemma Forall2_flat_map {A B C} (R : A -> B -> Prop) (P : C -> Prop) (g : B -> list C) xs ys :
+  Forall2 R xs ys -> (forall x y, In x xs -> R x y -> Forall P (g y)) -> Forall P (flat_map g ys).
+Proof.
+  induction 1 as [|x y xs ys Hxy _ IH]; intros H; cbn [flat_map]; [constructor|].
+  apply Forall_app. split.
+  - apply (H x y); [left; reflexivity|exact Hxy].
+  - apply IH. intros x' y' Hin. apply H. right. exact Hin.
+Qed.
+
+Lemma get_include_filename_Err l e : get_include_filename l = Err e -> e = PyIndexError.
+Proof.
+  unfold get_include_filename. destruct (nth_error _ 1); [discriminate|]. intros [= <-]. reflexivity.
+Qed.
+
+(* the fuel of the model is never exhausted, and the only exceptions are the
+   three the code can raise *)
+Lemma load_includes_fuel_errors fs cwd fn :
+  forall fuel text nested e,
+    (6 <= fuel + nested)%nat -> (nested <= 5)%nat ->
+    load_includes_fuel fs cwd fn fuel text nested = Err e ->
+    e = PyValueError \/ e = PyIOError \/ e = PyIndexError.
+Proof.
+  induction fuel as [|fuel IH]; intros text nested e H6 H5; [lia|].
+  rewrite load_includes_fuel_step.
+  destruct (mapM _ _) as [ls|e'] eqn:E; cbn [bind]; [discriminate|]. intros [= ->].
+  apply mapM_Err in E. destruct E as (l & _ & Hl). unfold expand_line in Hl.
+  destruct (starts_include l); [|discriminate].
+  destruct (Nat.eqb_spec nested 5) as [->|Hn]; [left; congruence|].
+  destruct (get_include_filename l) as [inc|e'] eqn:Eg; cbn [bind] in Hl.
+  - unfold open_file in Hl. destruct (text_of fs _) as [t|]; cbn [bind] in Hl.
+    + apply (IH t (S nested) e); [lia|lia|exact Hl].
+    + right; left. congruence.
+  - right; right. apply get_include_filename_Err in Eg. congruence.
+Qed.
+
+Theorem load_includes_never_out_of_fuel fs cwd text fn e :
+  load_includes fs cwd text fn = Err e ->
+  e = PyValueError \/ e = PyIOError \/ e = PyIndexError.
+Proof. apply load_includes_fuel_errors; lia. Qed.
+
+Section Depth.
+  Variable read : place -> option str.
+  Variable reader : str -> option (res str).
+  Variable base : place.
+  Notation sline := (subst_line read reader base).
+  Notation sby := (subst_by read reader base).
+
+  (* "the include tree below [text] is complete and at most [budget] files deep" *)
+  Fixpoint depth_le (budget : nat) (text : str) {struct budget} : Prop :=
+    Forall (fun l =>
+              match reader l with
+              | None => True
+              | Some r =>
+                  match budget with
+                  | O => False
+                  | S b => exists name t, r = Ok name /\ read (locate base name) = Some t /\ depth_le b t
+                  end
+              end) (lines_of text).
+
+  Lemma depth_le_eq budget text :
+    depth_le budget text =
+    Forall (fun l =>
+              match reader l with
+              | None => True
+              | Some r =>
+                  match budget with
+                  | O => False
+                  | S b => exists name t, r = Ok name /\ read (locate base name) = Some t /\ depth_le b t
+                  end
+              end) (lines_of text).
+  Proof. destruct budget; reflexivity. Qed.
+
+  (* expansion succeeds exactly on complete include trees of depth <= budget *)
+  Theorem subst_by_Ok_iff : forall budget text, (exists out, sby budget text = Ok out) <-> depth_le budget text.
+  Proof.
+    induction budget as [|b IH]; intros text; rewrite subst_by_eq, depth_le_eq.
+    - split.
+      + intros (out & H). destruct (mapM _ _) as [ls|e] eqn:E; cbn [bind] in H; [|discriminate].
+        assert (HF : exists r, mapM (sline 0) (lines_of text) = Ok r) by (exists ls; exact E).
+        apply mapM_Ok_iff in HF. eapply Forall_impl; [|exact HF].
+        intros l (y & Hy). unfold subst_line in Hy. destruct (reader l); [discriminate|exact I].
+      + intros H. assert (HF : exists r, mapM (sline 0) (lines_of text) = Ok r).
+        { apply mapM_Ok_iff. eapply Forall_impl; [|exact H]. intros l. unfold subst_line.
+          destruct (reader l); intros Hl; [contradiction|]. exists l. reflexivity. }
+        destruct HF as (r & Hr). rewrite Hr. cbn [bind]. eexists. reflexivity.
+    - split.
+      + intros (out & H). destruct (mapM _ _) as [ls|e] eqn:E; cbn [bind] in H; [|discriminate].
+        assert (HF : exists r, mapM (sline (S b)) (lines_of text) = Ok r) by (exists ls; exact E).
+        apply mapM_Ok_iff in HF. eapply Forall_impl; [|exact HF].
+        intros l (y & Hy). unfold subst_line in Hy. destruct (reader l) as [r|]; [|exact I].
+        destruct r as [name|e]; cbn [bind] in Hy; [|discriminate].
+        destruct (read (locate base name)) as [t|] eqn:Er; [|discriminate].
+        exists name, t. split; [reflexivity|]. split; [exact Er|]. apply IH. exists y. exact Hy.
+      + intros H. assert (HF : exists r, mapM (sline (S b)) (lines_of text) = Ok r).
+        { apply mapM_Ok_iff. eapply Forall_impl; [|exact H]. intros l. unfold subst_line.
+          destruct (reader l) as [r|]; intros Hl; [|exists l; reflexivity].
+          destruct Hl as (name & t & -> & Hr & Hd). cbn [bind]. rewrite Hr. apply IH. exact Hd. }
+        destruct HF as (r & Hr). rewrite Hr. cbn [bind]. eexists. reflexivity.
+  Qed.
+
+  (* which errors there are *)
+  Theorem subst_by_errors : forall budget text e,
+      sby budget text = Err e ->
+      e = PyValueError \/ e = PyIOError \/ exists l, reader l = Some (Err e).
+  Proof.
+    induction budget as [|b IH]; intros text e; rewrite subst_by_eq;
+      destruct (mapM _ _) as [ls|e'] eqn:E; cbn [bind]; try discriminate; intros [= ->];
+      apply mapM_Err in E; destruct E as (l & _ & Hl); unfold subst_line in Hl;
+      destruct (reader l) as [r|] eqn:Er; try discriminate.
+    - left. congruence.
+    - destruct r as [name|e']; cbn [bind] in Hl.
+      + destruct (read (locate base name)) as [t|]; [apply (IH t e Hl)|]. right; left. congruence.
+      + right; right. exists l. congruence.
+  Qed.
+
+  (* an I/O error means some directive named a location without a file *)
+  Theorem subst_by_IOError : forall budget text,
+      sby budget text = Err PyIOError ->
+      (exists name, read (locate base name) = None) \/ exists l, reader l = Some (Err PyIOError).
+  Proof.
+    induction budget as [|b IH]; intros text; rewrite subst_by_eq;
+      destruct (mapM _ _) as [ls|e'] eqn:E; cbn [bind]; try discriminate; intros [= ->];
+      apply mapM_Err in E; destruct E as (l & _ & Hl); unfold subst_line in Hl;
+      destruct (reader l) as [r|] eqn:Er; try discriminate.
+    destruct r as [name|e']; cbn [bind] in Hl.
+    - destruct (read (locate base name)) as [t|] eqn:Et; [apply (IH t Hl)|]. left. exists name. exact Et.
+    - right. exists l. congruence.
+  Qed.
+
+  (* how each error arises: the first line that fails decides *)
+  Definition line_fine (budget : nat) (l : str) : Prop := exists y, sline budget l = Ok y.
+
+  Theorem directive_below_budget_is_ValueError text pre l post r :
+    lines_of text = pre ++ l :: post -> Forall (line_fine 0) pre -> reader l = Some r ->
+    sby 0 text = Err PyValueError.
+  Proof.
+    intros Hl Hpre Hr. rewrite subst_by_eq, Hl.
+    rewrite (mapM_first_Err _ pre l post PyValueError); [reflexivity|exact Hpre|].
+    unfold subst_line. rewrite Hr. reflexivity.
+  Qed.
+
+  Theorem missing_file_is_IOError b text pre l post name :
+    lines_of text = pre ++ l :: post -> Forall (line_fine (S b)) pre ->
+    reader l = Some (Ok name) -> read (locate base name) = None ->
+    sby (S b) text = Err PyIOError.
+  Proof.
+    intros Hl Hpre Hr Hm. rewrite subst_by_eq, Hl.
+    rewrite (mapM_first_Err _ pre l post PyIOError); [reflexivity|exact Hpre|].
+    unfold subst_line. rewrite Hr. cbn [bind]. rewrite Hm. reflexivity.
+  Qed.
+
+  Theorem nested_error_propagates b text pre l post name t e :
+    lines_of text = pre ++ l :: post -> Forall (line_fine (S b)) pre ->
+    reader l = Some (Ok name) -> read (locate base name) = Some t -> sby b t = Err e ->
+    sby (S b) text = Err e.
+  Proof.
+    intros Hl Hpre Hr Ht He. rewrite subst_by_eq, Hl.
+    rewrite (mapM_first_Err _ pre l post e); [reflexivity|exact Hpre|].
+    unfold subst_line. rewrite Hr. cbn [bind]. rewrite Ht. exact He.
+  Qed.
+
+  (* chains of directives: [has_chain k text] = some directive of text names a
+     file that has a chain of k - 1, ... *)
+  Fixpoint has_chain (k : nat) (text : str) {struct k} : Prop :=
+    match k with
+    | O => True
+    | S k' => exists l r, In l (lines_of text) /\ reader l = Some r /\
+                          forall name t, r = Ok name -> read (locate base name) = Some t -> has_chain k' t
+    end.
+
+  Theorem chain_exceeds_budget : forall budget text,
+      has_chain (S budget) text -> forall out, sby budget text <> Ok out.
+  Proof.
+    induction budget as [|b IH]; intros text (l & r & Hin & Hr & Hnext) out Hout.
+    - assert (Hd : depth_le 0 text) by (apply subst_by_Ok_iff; exists out; exact Hout).
+      rewrite depth_le_eq, Forall_forall in Hd. specialize (Hd l Hin). rewrite Hr in Hd. exact Hd.
+    - assert (Hd : depth_le (S b) text) by (apply subst_by_Ok_iff; exists out; exact Hout).
+      rewrite depth_le_eq, Forall_forall in Hd. specialize (Hd l Hin). rewrite Hr in Hd.
+      destruct Hd as (name & t & -> & Ht & Hdt).
+      apply subst_by_Ok_iff in Hdt. destruct Hdt as (o & Ho).
+      exact (IH t (Hnext name t eq_refl Ht) o Ho).
+  Qed.
+
+  (* cyclic inclusion: chains of every length *)
+  Definition cyclic (text : str) : Prop := forall k, has_chain k text.
+
+  Theorem cyclic_never_expands text : cyclic text -> forall budget out, sby budget text <> Ok out.
+  Proof. intros Hc budget. apply chain_exceeds_budget. apply Hc. Qed.
+
+  (* a file that includes itself is cyclic *)
+  Theorem self_include_cyclic text l name :
+    In l (lines_of text) -> reader l = Some (Ok name) -> read (locate base name) = Some text ->
+    cyclic text.
+  Proof.
+    intros Hin Hr Ht k. induction k as [|k IH]; [exact I|].
+    exists l, (Ok name). split; [exact Hin|]. split; [exact Hr|].
+    intros name' t' [= <-] Ht'. rewrite Ht in Ht'. injection Ht' as <-. exact IH.
+  Qed.
+
+  (* two files that include each other are cyclic *)
+  Theorem mutual_include_cyclic ta tb la lb na nb :
+    In la (lines_of ta) -> reader la = Some (Ok nb) -> read (locate base nb) = Some tb ->
+    In lb (lines_of tb) -> reader lb = Some (Ok na) -> read (locate base na) = Some ta ->
+    cyclic ta.
+  Proof.
+    intros Ha Hra Htb Hb Hrb Hta.
+    assert (H : forall k, has_chain k ta /\ has_chain k tb).
+    { induction k as [|k [IHa IHb]]; [split; exact I|]. split.
+      - exists la, (Ok nb). split; [exact Ha|]. split; [exact Hra|].
+        intros n t [= <-] Ht. rewrite Htb in Ht. injection Ht as <-. exact IHb.
+      - exists lb, (Ok na). split; [exact Hb|]. split; [exact Hrb|].
+        intros n t [= <-] Ht. rewrite Hta in Ht. injection Ht as <-. exact IHa. }
+    intros k. apply H.
+  Qed.
+
+  (* ---------------------------------------------------------------- *)
+  (* F. the expansion contains no directive: expanding again changes    *)
+  (*    nothing                                                         *)
+  (* ---------------------------------------------------------------- *)
+  Lemma mapM_lines_nonnil {B} (f : str -> res B) text ls : mapM f (lines_of text) = Ok ls -> ls <> [].
+  Proof.
+    intros E Hn. apply mapM_length in E. rewrite lines_of_split, Hn in E.
+    destruct (split_char c_nl text) eqn:E2; [eapply split_char_nonnil; eassumption|discriminate].
+  Qed.
+
+  Lemma line_in_text_no_nl text x : In x (lines_of text) -> contains_char c_nl x = false.
+  Proof.
+    rewrite lines_of_split. intros Hin.
+    pose proof (split_char_pieces_nosep c_nl text) as H. rewrite Forall_forall in H. exact (H x Hin).
+  Qed.
+
+  Theorem subst_by_output_directive_free : forall budget text out,
+      sby budget text = Ok out -> Forall (fun l => reader l = None) (lines_of out).
+  Proof.
+    induction budget as [|b IH]; intros text out; rewrite subst_by_eq;
+      destruct (mapM _ _) as [ls|e] eqn:E; cbn [bind]; try discriminate; intros [= <-];
+      rewrite unlines_join, lines_of_split;
+      rewrite split_char_join by exact (mapM_lines_nonnil _ _ _ E);
+      apply mapM_Forall2 in E;
+      (eapply Forall2_flat_map; [exact E|]); intros x y Hin Hxy; cbn beta in Hxy;
+      apply line_in_text_no_nl in Hin; unfold subst_line in Hxy;
+      destruct (reader x) as [r|] eqn:Er.
+    - discriminate.
+    - injection Hxy as <-. rewrite split_char_no_sep by exact Hin. constructor; [exact Er|constructor].
+    - destruct r as [name|e]; cbn [bind] in Hxy; [|discriminate].
+      destruct (read (locate base name)) as [t|]; [|discriminate].
+      rewrite <- lines_of_split. exact (IH t y Hxy).
+    - injection Hxy as <-. rewrite split_char_no_sep by exact Hin. constructor; [exact Er|constructor].
+  Qed.
+
+  Theorem subst_by_identity_on_directive_free budget text :
+    Forall (fun l => reader l = None) (lines_of text) -> sby budget text = Ok text.
+  Proof.
+    intros H. rewrite subst_by_eq. rewrite mapM_id_on.
+    - cbn [bind]. rewrite unlines_join, lines_of_split, join_split_char. reflexivity.
+    - intros l Hl. rewrite Forall_forall in H. unfold subst_line. rewrite (H l Hl). reflexivity.
+  Qed.
+End Depth.
+
+(* the model on a text without lines that start with include: untouched,
+   whatever the file system, working directory and file name *)
+Theorem load_includes_identity_on_directive_free fs cwd text fn :
+  Forall (fun l => starts_include l = false) (split_char c_nl text) ->
+  load_includes fs cwd text fn = Ok text.
+Proof.
+  intros H. unfold load_includes. rewrite load_includes_fuel_step, mapM_id_on.
+  - cbn [bind]. rewrite join_split_char. reflexivity.
+  - intros l Hl. rewrite Forall_forall in H. unfold expand_line. rewrite (H l Hl). reflexivity.
+Qed.
+
+Lemma code_reader_None l : code_reader l = None <-> starts_include l = false.
+Proof. unfold code_reader. destruct (starts_include l); split; congruence. Qed.
+
+(* open(root) and loads(flattened): the LALR parser receives the same text *)
+Theorem expansion_is_fixed_point fs cwd text fn flat :
+  isabs cwd = true ->
+  load_includes fs cwd text fn = Ok flat ->
+  forall fs' cwd' fn', load_includes fs' cwd' flat fn' = Ok flat.
+Proof.
+  intros Hcwd H fs' cwd' fn'. rewrite includes_are_substitution_by_code_reader in H by exact Hcwd.
+  apply subst_by_output_directive_free in H. rewrite lines_of_split in H.
+  apply load_includes_identity_on_directive_free.
+  eapply Forall_impl; [|exact H]. intros l. apply code_reader_None.
+Qed.
+
+(* ================================================================== *)
+(* G. the code's line reader against the specification's directive     *)
+(* ================================================================== *)
+
+(* ---- strip ---- *)
+Lemma skip_lstrip f s : skip f s = lstrip_by f s.
+Proof. induction s as [|c s IH]; [reflexivity|]. cbn [skip lstrip_by]. rewrite IH. reflexivity. Qed.
+
+Lemma lstrip_by_snoc f a x :
+  lstrip_by f (a ++ [x]) =
+    if is_nil (lstrip_by f a) then (if f x then [] else [x]) else lstrip_by f a ++ [x].
+Proof.
+  induction a as [|c a IH]; [reflexivity|]. cbn [app lstrip_by].
+  destruct (f c); [exact IH|reflexivity].
+Qed.
+
+Lemma rstrip_by_cons f x s :
+  rstrip_by f (x :: s) = if is_nil (rstrip_by f s) && f x then [] else x :: rstrip_by f s.
+Proof.
+  unfold rstrip_by. cbn [rev]. rewrite lstrip_by_snoc.
+  destruct (lstrip_by f (rev s)) as [|y r] eqn:E; cbn [is_nil rev andb].
+  - destruct (f x); reflexivity.
+  - rewrite rev_app_distr. cbn [rev app]. destruct (rev r); reflexivity.
+Qed.
+
+Lemma rstrip_by_cons_keep f x s : f x = false -> rstrip_by f (x :: s) = x :: rstrip_by f s.
+Proof. intros H. rewrite rstrip_by_cons, H, andb_false_r. reflexivity. Qed.
+
+Lemma rstrip_by_app_keep f w s :
+  Forall (fun c => f c = false) w -> rstrip_by f (w ++ s) = w ++ rstrip_by f s.
+Proof.
+  induction w as [|c w IH]; intros H; [reflexivity|]. inversion H; subst.
+  cbn [app]. rewrite rstrip_by_cons_keep, IH by assumption. reflexivity.
+Qed.
+
+Lemma rstrip_by_all f b : forallb f b = true -> rstrip_by f b = [].
+Proof.
+  induction b as [|c b IH]; [reflexivity|]. cbn [forallb]. intros H.
+  apply andb_true_iff in H. destruct H as [Hc Hb]. rewrite rstrip_by_cons, IH, Hc by assumption. reflexivity.
+Qed.
+
+Lemma rstrip_by_snoc_keep f s y : f y = false -> rstrip_by f (s ++ [y]) = s ++ [y].
+Proof.
+  intros H. unfold rstrip_by. rewrite rev_app_distr. cbn [rev app lstrip_by]. rewrite H.
+  cbn [rev]. rewrite rev_involutive. reflexivity.
+Qed.
+
+Lemma lstrip_by_all f b s : forallb f b = true -> lstrip_by f (b ++ s) = lstrip_by f s.
+Proof.
+  induction b as [|c b IH]; [reflexivity|]. cbn [forallb app lstrip_by]. intros H.
+  apply andb_true_iff in H. destruct H as [Hc Hb]. rewrite Hc. apply IH. exact Hb.
+Qed.
+
+Lemma forallb_rev {A} (f : A -> bool) l : forallb f (rev l) = forallb f l.
+Proof.
+  induction l as [|x l IH]; [reflexivity|]. cbn [rev forallb].
+  rewrite forallb_app, IH. cbn [forallb]. rewrite andb_true_r. apply andb_comm.
+Qed.
+
+Lemma rstrip_by_app_keep_last f m y b :
+  f y = false -> forallb f b = true -> rstrip_by f (m ++ y :: b) = m ++ [y].
+Proof.
+  intros Hy Hb. unfold rstrip_by. rewrite rev_app_distr. cbn [rev]. rewrite <- app_assoc. cbn [app].
+  rewrite lstrip_by_all by (rewrite forallb_rev; exact Hb).
+  cbn [lstrip_by]. rewrite Hy. cbn [rev]. rewrite rev_involutive. reflexivity.
+Qed.
+
+(* stripping a string whose first and last characters stay *)
+Lemma strip_by_noop f s :
+  match s with [] => True | x :: _ => f x = false /\ f (last s 0) = false end -> strip_by f s = s.
+Proof.
+  destruct s as [|x s]; [reflexivity|]. intros [Hx Hl]. unfold strip_by. cbn [lstrip_by]. rewrite Hx.
+  assert (Hne : x :: s <> []) by discriminate.
+  pose proof (app_removelast_last 0 Hne) as Hs.
+  set (m := removelast (x :: s)) in *. set (y := last (x :: s) 0) in *.
+  rewrite Hs. apply rstrip_by_snoc_keep. exact Hl.
+Qed.
+
+(* stripping the enclosing pair of quotes *)
+Lemma strip_by_enclosed f q n :
+  f q = true ->
+  match n with [] => True | x :: _ => f x = false /\ f (last n 0) = false end ->
+  strip_by f (q :: n ++ [q]) = n.
+Proof.
+  intros Hq Hn. unfold strip_by. cbn [lstrip_by]. rewrite Hq.
+  destruct n as [|x n]; [cbn; rewrite Hq; reflexivity|]. destruct Hn as [Hx Hl].
+  cbn [app lstrip_by]. rewrite Hx.
+  change (x :: n ++ [q]) with ((x :: n) ++ [q]).
+  assert (Hne : x :: n <> []) by discriminate.
+  pose proof (app_removelast_last 0 Hne) as Hs.
+  set (m := removelast (x :: n)) in *. set (y := last (x :: n) 0) in *.
+  rewrite Hs, <- app_assoc. cbn [app].
+  apply rstrip_by_app_keep_last; [exact Hl|cbn; rewrite Hq; reflexivity].
+Qed.
+
+(* ---- split() ---- *)
+Definition all_blank (b : str) : Prop := forallb isspace b = true.
+Definition is_word (u : str) : Prop := u <> [] /\ Forall (fun c => isspace c = false) u.
+Definition starts_blank_or_nil (s : str) : Prop :=
+  match s with [] => True | c :: _ => isspace c = true end.
+
+Lemma split_ws_blank b s : all_blank b -> split_ws (b ++ s) = split_ws s.
+Proof.
+  unfold all_blank. induction b as [|c b IH]; [reflexivity|]. cbn [forallb app split_ws]. intros H.
+  apply andb_true_iff in H. destruct H as [Hc Hb]. rewrite Hc. apply IH. exact Hb.
+Qed.
+
+Lemma split_ws_all_blank b : all_blank b -> split_ws b = [].
+Proof. intros H. rewrite <- (app_nil_r b), split_ws_blank by exact H. reflexivity. Qed.
+
+Lemma split_ws_word u s :
+  is_word u -> starts_blank_or_nil s -> split_ws (u ++ s) = u :: split_ws s.
+Proof.
+  intros [Hne Hu] Hs. induction u as [|c u IH]; [congruence|]. clear Hne.
+  inversion Hu as [|? ? Hc Hu']; subst. cbn [app]. destruct u as [|c2 u].
+  - cbn [app]. destruct s as [|c' s'].
+    + cbn [split_ws]. rewrite Hc. reflexivity.
+    + cbn [starts_blank_or_nil] in Hs. cbn [split_ws]. rewrite Hc, Hs. reflexivity.
+  - specialize (IH ltac:(discriminate) Hu'). cbn [app] in *.
+    inversion Hu' as [|? ? Hc2 _]; subst.
+    change (split_ws (c :: c2 :: u ++ s)) with
+      (if isspace c then split_ws (c2 :: u ++ s)
+       else if isspace c2 then [c] :: split_ws (c2 :: u ++ s)
+            else match split_ws (c2 :: u ++ s) with w :: r => (c :: w) :: r | [] => [[c]] end).
+    rewrite Hc, Hc2, IH. reflexivity.
+Qed.
+
+(* ---- the part of a line before the first hash sign ---- *)
+Definition before_hash (line : str) : str :=
+  if contains_char c_hash line then hd [] (split_char c_hash line) else line.
+
+Lemma contains_char_app c a b : contains_char c (a ++ b) = contains_char c a || contains_char c b.
+Proof. unfold contains_char. apply existsb_app. Qed.
+
+Lemma before_hash_no_hash p : contains_char c_hash p = false -> before_hash p = p.
+Proof. intros H. unfold before_hash. rewrite H. reflexivity. Qed.
+
+Lemma before_hash_app_hash p c : contains_char c_hash p = false -> before_hash (p ++ c_hash :: c) = p.
+Proof.
+  intros H. unfold before_hash. rewrite contains_char_app. unfold contains_char at 2. cbn [existsb].
+  rewrite N.eqb_refl, orb_true_r. rewrite split_char_app_sep', split_char_no_sep by exact H.
+  reflexivity.
+Qed.
+
+Lemma get_include_filename_eq l :
+  get_include_filename l =
+    match nth_error (split_ws (before_hash l)) 1 with
+    | None => Err PyIndexError
+    | Some p => Ok (strip_char c_dquote (strip_char c_squote p))
+    end.
+Proof. reflexivity. Qed.
+
+Definition no_hash (s : str) : Prop := contains_char c_hash s = false.
+
+Lemma no_hash_app a b : no_hash a -> no_hash b -> no_hash (a ++ b).
+Proof. unfold no_hash. intros Ha Hb. rewrite contains_char_app, Ha, Hb. reflexivity. Qed.
+
+Lemma all_blank_no_hash b : all_blank b -> no_hash b.
+Proof.
+  unfold all_blank, no_hash, contains_char. induction b as [|c b IH]; [reflexivity|].
+  cbn [forallb existsb]. intros H. apply andb_true_iff in H. destruct H as [Hc Hb].
+  rewrite IH by exact Hb. rewrite orb_false_r.
+  destruct (N.eqb_spec c_hash c) as [<-|]; [discriminate Hc|reflexivity].
+Qed.
+
+(* the shape of a well-formed INCLUDE line and what the code extracts from it:
+   blanks, keyword, blanks, one token, blanks, optionally a comment *)
+Lemma extraction_on_shape b1 w b2 tok b3 tail :
+  all_blank b1 -> is_word w -> no_hash w -> all_blank b2 -> b2 <> [] ->
+  is_word tok -> no_hash tok -> all_blank b3 ->
+  (tail = [] \/ exists c, tail = c_hash :: c) ->
+  get_include_filename (b1 ++ w ++ b2 ++ tok ++ b3 ++ tail) =
+    Ok (strip_char c_dquote (strip_char c_squote tok)).
+Proof.
+  intros Hb1 Hw Hwh Hb2 Hb2n Htok Htokh Hb3 Htail.
+  rewrite get_include_filename_eq.
+  assert (Hpre : before_hash (b1 ++ w ++ b2 ++ tok ++ b3 ++ tail) = b1 ++ w ++ b2 ++ tok ++ b3).
+  { assert (Hnh : no_hash (b1 ++ w ++ b2 ++ tok ++ b3)).
+    { repeat apply no_hash_app; auto using all_blank_no_hash. }
+    destruct Htail as [->|(c & ->)].
+    - rewrite app_nil_r. apply before_hash_no_hash. exact Hnh.
+    - replace (b1 ++ w ++ b2 ++ tok ++ b3 ++ c_hash :: c)
+        with ((b1 ++ w ++ b2 ++ tok ++ b3) ++ c_hash :: c) by (rewrite <- !app_assoc; reflexivity).
+      apply before_hash_app_hash. exact Hnh. }
+  rewrite Hpre. rewrite split_ws_blank by exact Hb1.
+  rewrite split_ws_word; [|exact Hw|].
+  2:{ destruct b2 as [|c b2]; [congruence|]. cbn [app starts_blank_or_nil].
+      unfold all_blank in Hb2. cbn [forallb] in Hb2. apply andb_true_iff in Hb2. tauto. }
+  rewrite split_ws_blank by exact Hb2.
+  rewrite split_ws_word; [|exact Htok|].
+  2:{ destruct b3 as [|c b3]; [exact I|]. cbn [starts_blank_or_nil].
+      unfold all_blank in Hb3. cbn [forallb] in Hb3. apply andb_true_iff in Hb3. tauto. }
+  reflexivity.
+Qed.
+
+(* ---- names for which quoting does not matter ---- *)
+Definition plain_char (c : N) : bool := negb (isspace c) && negb (c =? c_hash).
+Definition ends_ok (n : str) : bool :=
+  match n with
+  | [] => true
+  | x :: _ => negb (is_quote x) && negb (is_quote (last n 0))
+  end.
+Definition name_ok (n : str) : bool := forallb plain_char n && ends_ok n.
+
+Lemma forallb_plain_word n : forallb plain_char n = true -> Forall (fun c => isspace c = false) n /\ no_hash n.
+Proof.
+  unfold no_hash, contains_char. induction n as [|c n IH]; [split; [constructor|reflexivity]|].
+  cbn [forallb existsb]. intros H. apply andb_true_iff in H. destruct H as [Hc Hn].
+  unfold plain_char in Hc. apply andb_true_iff in Hc. destruct Hc as [H1 H2].
+  apply negb_true_iff in H1, H2. destruct (IH Hn) as [IH1 IH2]. split.
+  - constructor; assumption.
+  - rewrite IH2, orb_false_r, N.eqb_sym. exact H2.
+Qed.
+
+Lemma ends_ok_quote n q :
+  ends_ok n = true -> is_quote q = true ->
+  match n with [] => True | x :: _ => N.eqb q x = false /\ N.eqb q (last n 0) = false end.
+Proof.
+  destruct n as [|x n]; [intros; exact I|]. unfold ends_ok. intros H Hq.
+  apply andb_true_iff in H. destruct H as [H1 H2]. apply negb_true_iff in H1, H2.
+  split.
+  - destruct (N.eqb_spec q x) as [<-|]; [congruence|reflexivity].
+  - destruct (N.eqb_spec q (last (x :: n) 0)) as [E|]; [rewrite <- E in H2; congruence|reflexivity].
+Qed.
+
+Lemma strip_quotes_bare n : ends_ok n = true ->
+  strip_char c_dquote (strip_char c_squote n) = n.
+Proof.
+  intros H. unfold strip_char.
+  rewrite (strip_by_noop (N.eqb c_squote) n) by (apply ends_ok_quote; [exact H|reflexivity]).
+  apply strip_by_noop. apply ends_ok_quote; [exact H|reflexivity].
+Qed.
+
+Lemma last_enclosed (q : N) n : last (q :: n ++ [q]) 0 = q.
+Proof. change (q :: n ++ [q]) with ((q :: n) ++ [q]). apply last_last. Qed.
+
+Lemma strip_quotes_dquoted n : ends_ok n = true ->
+  strip_char c_dquote (strip_char c_squote (c_dquote :: n ++ [c_dquote])) = n.
+Proof.
+  intros H. unfold strip_char.
+  rewrite (strip_by_noop (N.eqb c_squote)).
+  - apply strip_by_enclosed; [reflexivity|]. apply ends_ok_quote; [exact H|reflexivity].
+  - rewrite last_enclosed. split; reflexivity.
+Qed.
+
+Lemma strip_quotes_squoted n : ends_ok n = true ->
+  strip_char c_dquote (strip_char c_squote (c_squote :: n ++ [c_squote])) = n.
+Proof.
+  intros H. unfold strip_char.
+  rewrite (strip_by_enclosed (N.eqb c_squote)); [|reflexivity|apply ends_ok_quote; [exact H|reflexivity]].
+  apply strip_by_noop. apply ends_ok_quote; [exact H|reflexivity].
+Qed.
+
+(* how a name is written on the line *)
+Inductive quoting := Bare | DQuoted | SQuoted.
+Definition written (q : quoting) (n : str) : str :=
+  match q with
+  | Bare => n
+  | DQuoted => c_dquote :: n ++ [c_dquote]
+  | SQuoted => c_squote :: n ++ [c_squote]
+  end.
+
+(* neither the kind of quotes nor a trailing comment nor the amount of white
+   space matters for the extracted name *)
+Theorem filename_extraction b1 w b2 q n b3 tail :
+  all_blank b1 -> is_word w -> no_hash w -> all_blank b2 -> b2 <> [] -> all_blank b3 ->
+  (tail = [] \/ exists c, tail = c_hash :: c) ->
+  name_ok n = true -> (q = Bare -> n <> []) ->
+  get_include_filename (b1 ++ w ++ b2 ++ written q n ++ b3 ++ tail) = Ok n.
+Proof.
+  intros Hb1 Hw Hwh Hb2 Hb2n Hb3 Htail Hn Hbare.
+  unfold name_ok in Hn. apply andb_true_iff in Hn. destruct Hn as [Hplain Hends].
+  destruct (forallb_plain_word n Hplain) as [Hword Hnh].
+  assert (Htok : is_word (written q n) /\ no_hash (written q n)).
+  { destruct q; cbn [written].
+    - split; [split; [apply Hbare; reflexivity|exact Hword]|exact Hnh].
+    - split.
+      + split; [discriminate|]. constructor; [reflexivity|]. apply Forall_app. split; [exact Hword|].
+        constructor; [reflexivity|constructor].
+      + change (c_dquote :: n ++ [c_dquote]) with ([c_dquote] ++ n ++ [c_dquote]).
+        repeat apply no_hash_app; try exact Hnh; reflexivity.
+    - split.
+      + split; [discriminate|]. constructor; [reflexivity|]. apply Forall_app. split; [exact Hword|].
+        constructor; [reflexivity|constructor].
+      + change (c_squote :: n ++ [c_squote]) with ([c_squote] ++ n ++ [c_squote]).
+        repeat apply no_hash_app; try exact Hnh; reflexivity. }
+  destruct Htok as [Htok Htokh].
+  rewrite extraction_on_shape by assumption. f_equal.
+  destruct q; cbn [written].
+  - apply strip_quotes_bare. exact Hends.
+  - apply strip_quotes_dquoted. exact Hends.
+  - apply strip_quotes_squoted. exact Hends.
+Qed.
+
+(* ---- reading the specification's directive function ---- *)
+Lemma skip_spec s :
+  exists b, s = b ++ skip isspace s /\ all_blank b /\
+            match skip isspace s with [] => True | c :: _ => isspace c = false end.
+Proof.
+  unfold all_blank. induction s as [|c s IH]; [exists []; repeat split|].
+  cbn [skip]. destruct (isspace c) eqn:E.
+  - destruct IH as (b & Hs & Hb & Hh). exists (c :: b). repeat split.
+    + cbn [app]. rewrite <- Hs. reflexivity.
+    + cbn [forallb]. rewrite E, Hb. reflexivity.
+    + exact Hh.
+  - exists []. repeat split. exact E.
+Qed.
+
+Lemma until_spec stop s a b :
+  until stop s = (a, b) ->
+  s = a ++ b /\ Forall (fun c => stop c = false) a /\
+  match b with [] => True | c :: _ => stop c = true end.
+Proof.
+  revert a b; induction s as [|c s IH]; intros a b; cbn [until].
+  - intros [= <- <-]. repeat split. constructor.
+  - destruct (stop c) eqn:E.
+    + intros [= <- <-]. repeat split; [constructor|exact E].
+    + destruct (until stop s) as [a' b'] eqn:Eu. intros [= <- <-].
+      destruct (IH a' b' eq_refl) as (Hs & Ha & Hb). repeat split.
+      * cbn [app]. rewrite <- Hs. reflexivity.
+      * constructor; assumption.
+      * exact Hb.
+Qed.
+
+Lemma isspace_printable c : 33 <= c <= 126 -> isspace c = false.
+Proof.
+  intros H. unfold isspace, py_whitespace. cbn [existsb].
+  repeat match goal with
+         | |- context [c =? ?k] => replace (c =? k) with false by (symmetry; apply N.eqb_neq; lia)
+         end.
+  reflexivity.
+Qed.
+
+Lemma lower_cp_letter c x :
+  97 <= x <= 122 -> (c =? x) || (c + 32 =? x) = true -> lower_cp c = [x] /\ 65 <= c <= 122.
+Proof.
+  intros Hx H. apply orb_true_iff in H. unfold lower_cp, case_cp, lower_ascii.
+  destruct H as [H|H]; apply N.eqb_eq in H.
+  - subst c. assert (E1 : x <? 128 = true) by (apply N.ltb_lt; lia). rewrite E1.
+    assert (E2 : x <=? 90 = false) by (apply N.leb_gt; lia). rewrite E2, andb_false_r.
+    split; [reflexivity|lia].
+  - assert (E1 : c <? 128 = true) by (apply N.ltb_lt; lia). rewrite E1.
+    assert (E2 : 65 <=? c = true) by (apply N.leb_le; lia).
+    assert (E3 : c <=? 90 = true) by (apply N.leb_le; lia). rewrite E2, E3. cbn [andb].
+    split; [rewrite H; reflexivity|lia].
+Qed.
+
+Lemma after_word_spec w :
+  Forall (fun x => 97 <= x <= 122) w ->
+  forall s after, after_word w s = Some after ->
+    exists p, s = p ++ after /\ lower p = w /\ Forall (fun c => isspace c = false) p /\
+              no_hash p /\ length p = length w.
+Proof.
+  unfold no_hash, contains_char.
+  induction 1 as [|x w Hx Hw IH]; intros s after; cbn [after_word].
+  - intros [= <-]. exists []. repeat split. constructor.
+  - destruct s as [|c s]; [discriminate|].
+    destruct ((c =? x) || (c + 32 =? x)) eqn:E; [|discriminate]. intros Ha.
+    destruct (IH s after Ha) as (p & Hs & Hl & Hsp & Hh & Hlen).
+    destruct (lower_cp_letter c x Hx E) as [Hlc Hc].
+    exists (c :: p). repeat split.
+    + cbn [app]. rewrite <- Hs. reflexivity.
+    + unfold lower in *. cbn [flat_map]. rewrite Hlc, Hl. reflexivity.
+    + constructor; [apply isspace_printable; lia|exact Hsp].
+    + cbn [existsb]. rewrite Hh, orb_false_r. apply N.eqb_neq. unfold c_hash. lia.
+    + cbn [length]. rewrite Hlen. reflexivity.
+Qed.
+
+Lemma word_include_letters : Forall (fun x => 97 <= x <= 122) word_include.
+Proof. unfold word_include. repeat constructor; lia. Qed.
+
+Lemma word_include_kw : word_include = kw_include.
+Proof. reflexivity. Qed.
+
+Lemma kw_include_Str : kw_include = Str "include".
+Proof. reflexivity. Qed.
+
+Lemma comment_or_end_shape rest :
+  comment_or_end isspace rest = true ->
+  exists b3 tail, rest = b3 ++ tail /\ all_blank b3 /\ (tail = [] \/ exists c, tail = c_hash :: c).
+Proof.
+  unfold comment_or_end. destruct (skip_spec rest) as (b & Hs & Hb & _).
+  destruct (skip isspace rest) as [|c r] eqn:E; intros H.
+  - exists b, []. repeat split; [exact Hs|exact Hb|left; reflexivity].
+  - exists b, (c :: r). repeat split; [exact Hs|exact Hb|]. right.
+    unfold is_hash in H. apply N.eqb_eq in H. subst c. exists r. reflexivity.
+Qed.
+
+(* a directive line has the shape of [filename_extraction] *)
+Lemma directive_shape l n :
+  directive isspace l = Some n ->
+  exists b1 w b2 q b3 tail,
+    l = b1 ++ w ++ b2 ++ written q n ++ b3 ++ tail /\
+    all_blank b1 /\ is_word w /\ no_hash w /\ lower w = kw_include /\
+    all_blank b2 /\ b2 <> [] /\ all_blank b3 /\
+    (tail = [] \/ exists c, tail = c_hash :: c) /\
+    (q = Bare -> n <> [] /\ forallb plain_char n = true /\
+                 match n with x :: _ => is_quote x = false | [] => True end).
+Proof.
+  unfold directive. destruct (skip_spec l) as (b1 & Hl & Hb1 & _).
+  destruct (after_word word_include (skip isspace l)) as [after|] eqn:Ea; [|discriminate].
+  destruct (after_word_spec _ word_include_letters _ _ Ea) as (w & Hw & Hlow & Hwsp & Hwh & Hwlen).
+  destruct after as [|b after']; [discriminate|].
+  destruct (isspace b) eqn:Eb; cbn [negb]; [|discriminate].
+  destruct (skip_spec (b :: after')) as (b2 & H2 & Hb2 & Hq).
+  destruct (skip isspace (b :: after')) as [|q r] eqn:Es; [discriminate|].
+  assert (Hb2n : b2 <> []).
+  { intros ->. cbn [app] in H2. injection H2 as -> _. rewrite Hq in Eb. discriminate. }
+  assert (Hwword : is_word w).
+  { split; [|exact Hwsp]. intros ->. discriminate Hwlen. }
+  destruct (is_quote q) eqn:Equote.
+  - destruct (until (N.eqb q) r) as [name rest] eqn:Eu.
+    destruct (until_spec _ _ _ _ Eu) as (Hr & Hname & Hrest).
+    destruct rest as [|q' rest']; [discriminate|].
+    destruct (comment_or_end isspace rest') eqn:Ec; [|discriminate]. intros [= <-].
+    apply N.eqb_eq in Hrest. subst q'.
+    destruct (comment_or_end_shape rest' Ec) as (b3 & tail & Hrest' & Hb3 & Htail).
+    assert (Hqq : q = c_dquote \/ q = c_squote).
+    { unfold is_quote in Equote. apply orb_true_iff in Equote.
+      destruct Equote as [E|E]; apply N.eqb_eq in E; [left|right]; exact E. }
+    assert (Hlow' : lower w = kw_include) by (rewrite <- word_include_kw; exact Hlow).
+    exists b1, w, b2, (if q =? c_dquote then DQuoted else SQuoted), b3, tail.
+    split; [|split; [exact Hb1|split; [exact Hwword|split; [exact Hwh|split; [exact Hlow'|
+      split; [exact Hb2|split; [exact Hb2n|split; [exact Hb3|split; [exact Htail|]]]]]]]]].
+    + rewrite Hl at 1. rewrite Hw, H2, Hr, Hrest'. rewrite <- ?app_assoc.
+      destruct Hqq as [-> | ->];
+        [change (c_dquote =? c_dquote) with true|change (c_squote =? c_dquote) with false];
+        cbn [written app]; rewrite <- ?app_assoc; reflexivity.
+    + destruct Hqq as [-> | ->];
+        [change (c_dquote =? c_dquote) with true|change (c_squote =? c_dquote) with false];
+        discriminate.
+  - destruct (is_hash q) eqn:Ehash; [discriminate|].
+    destruct (until (fun c => isspace c || is_hash c) (q :: r)) as [name rest] eqn:Eu.
+    destruct (until_spec _ _ _ _ Eu) as (Hr & Hname & Hrest).
+    destruct (comment_or_end isspace rest) eqn:Ec; [|discriminate]. intros [= <-].
+    destruct (comment_or_end_shape rest Ec) as (b3 & tail & Hrest' & Hb3 & Htail).
+    assert (Hn0 : exists name', name = q :: name').
+    { cbn [until] in Eu. rewrite Hq, Ehash in Eu. cbn [orb] in Eu.
+      destruct (until _ r) as [a' b']. injection Eu as <- _. eexists. reflexivity. }
+    destruct Hn0 as (name' & ->).
+    assert (Hlow' : lower w = kw_include) by (rewrite <- word_include_kw; exact Hlow).
+    exists b1, w, b2, Bare, b3, tail.
+    split; [|split; [exact Hb1|split; [exact Hwword|split; [exact Hwh|split; [exact Hlow'|
+      split; [exact Hb2|split; [exact Hb2n|split; [exact Hb3|split; [exact Htail|]]]]]]]]].
+    + rewrite Hl at 1. rewrite Hw, H2, Hr, Hrest'. rewrite <- ?app_assoc. reflexivity.
+    + intros _. split; [discriminate|]. split; [|exact Equote].
+      apply forallb_forall. intros c Hc. rewrite Forall_forall in Hname. specialize (Hname c Hc).
+      apply orb_false_iff in Hname. destruct Hname as [H1 H2']. unfold plain_char.
+      unfold is_hash in H2'. change 35 with c_hash in H2'. rewrite H1, H2'. reflexivity.
+Qed.
+
+Lemma startswith_app_self p y : startswith (p ++ y) p = true.
+Proof.
+  induction p as [|c p IH]; [apply startswith_nil|]. cbn [app startswith].
+  rewrite N.eqb_refl, IH. reflexivity.
+Qed.
+
+Lemma lower_app a b : lower (a ++ b) = lower a ++ lower b.
+Proof. unfold lower. apply flat_map_app. Qed.
+
+Lemma starts_include_on_shape b1 w rest :
+  all_blank b1 -> is_word w -> lower w = kw_include -> starts_include (b1 ++ w ++ rest) = true.
+Proof.
+  intros Hb1 [Hne Hw] Hlow. unfold starts_include, strip, strip_by.
+  rewrite lstrip_by_all by exact Hb1.
+  assert (Hl : lstrip_by isspace (w ++ rest) = w ++ rest).
+  { destruct w as [|c w]; [congruence|]. inversion Hw; subst. cbn [app lstrip_by].
+    replace (isspace c) with false by (symmetry; assumption). reflexivity. }
+  rewrite Hl, rstrip_by_app_keep by exact Hw. rewrite lower_app, Hlow. apply startswith_app_self.
+Qed.
+
+(* every directive of the specification is taken for an INCLUDE line by the code *)
+Theorem directive_starts_include l n : directive isspace l = Some n -> starts_include l = true.
+Proof.
+  intros H. destruct (directive_shape l n H) as (b1 & w & b2 & q & b3 & tail & -> & Hb1 & Hw & _ & Hlow & _).
+  apply starts_include_on_shape; assumption.
+Qed.
+
+(* ... and for a plain name the code extracts the directive's name *)
+Theorem directive_name_extracted l n :
+  directive isspace l = Some n -> name_ok n = true -> get_include_filename l = Ok n.
+Proof.
+  intros H Hn.
+  destruct (directive_shape l n H)
+    as (b1 & w & b2 & q & b3 & tail & -> & Hb1 & Hw & Hwh & _ & Hb2 & Hb2n & Hb3 & Htail & Hbare).
+  apply filename_extraction; try assumption. intros Hq. apply (Hbare Hq).
+Qed.
+
+(* the guard: every line the code takes for an INCLUDE line is a directive
+   with a plain name *)
+Definition line_ok (l : str) : bool :=
+  if starts_include l then
+    match directive isspace l with
+    | Some n => name_ok n
+    | None => false
+    end
+  else true.
+
+Definition text_ok (t : str) : bool := forallb line_ok (split_char c_nl t).
+Definition fs_ok (fs : fsys) : bool := forallb (fun e => text_ok (universal_newlines (snd e))) fs.
+
+Theorem reader_agreement l : line_ok l = true -> code_reader l = spec_reader isspace l.
+Proof.
+  unfold line_ok, code_reader, spec_reader. destruct (starts_include l) eqn:Es.
+  - destruct (directive isspace l) as [n|] eqn:Ed; [|discriminate]. intros Hn.
+    rewrite (directive_name_extracted l n Ed Hn). reflexivity.
+  - intros _. destruct (directive isspace l) as [n|] eqn:Ed; [|reflexivity].
+    apply directive_starts_include in Ed. congruence.
+Qed.
+
+Lemma subst_by_reader_ext read r1 r2 base (ok : str -> bool) :
+  (forall l, ok l = true -> r1 l = r2 l) ->
+  (forall p t, read p = Some t -> forallb ok (lines_of t) = true) ->
+  forall budget text, forallb ok (lines_of text) = true ->
+    subst_by read r1 base budget text = subst_by read r2 base budget text.
+Proof.
+  intros Hr Hfs. induction budget as [|b IH]; intros text Hok; rewrite !subst_by_eq.
+  - rewrite (mapM_ext _ (subst_line read r2 base 0)); [reflexivity|].
+    intros l Hin. rewrite forallb_forall in Hok. specialize (Hok l Hin).
+    unfold subst_line. rewrite (Hr l Hok). reflexivity.
+  - rewrite (mapM_ext _ (subst_line read r2 base (S b))); [reflexivity|].
+    intros l Hin. rewrite forallb_forall in Hok. specialize (Hok l Hin).
+    unfold subst_line. rewrite (Hr l Hok).
+    destruct (r2 l) as [[name|e]|]; try reflexivity. cbn [bind].
+    destruct (read (locate base name)) as [t|] eqn:Et; [|reflexivity].
+    apply IH. exact (Hfs _ _ Et).
+Qed.
+
+Lemma fs_lookup_In p fs raw : fs_lookup p fs = Some raw -> exists q, In (q, raw) fs.
+Proof.
+  induction fs as [|[q t] fs IH]; cbn [fs_lookup]; [discriminate|].
+  destruct (loc_eqb p q).
+  - intros [= ->]. exists q. left. reflexivity.
+  - intros H. destruct (IH H) as (q' & Hq). exists q'. right. exact Hq.
+Qed.
+
+Lemma fs_ok_text_of fs p t : fs_ok fs = true -> text_of fs p = Some t -> text_ok t = true.
+Proof.
+  unfold fs_ok, text_of. intros Hok. destruct (fs_lookup p fs) as [raw|] eqn:E; [|discriminate].
+  intros [= <-]. destruct (fs_lookup_In _ _ _ E) as (q & Hin).
+  rewrite forallb_forall in Hok. exact (Hok _ Hin).
+Qed.
+
+(* the property's first clause, under the guard *)
+Theorem includes_are_substitution_guarded fs cwd text fn :
+  isabs cwd = true -> text_ok text = true -> fs_ok fs = true ->
+  load_includes fs cwd text fn = expanded isspace (text_of fs) cwd fn text.
+Proof.
+  intros Hcwd Ht Hfs. rewrite includes_are_substitution_by_code_reader by exact Hcwd.
+  unfold expanded, subst.
+  apply (subst_by_reader_ext (text_of fs) code_reader (spec_reader isspace) _ line_ok).
+  - exact reader_agreement.
+  - intros p t Hp. rewrite lines_of_split. exact (fs_ok_text_of fs p t Hfs Hp).
+  - rewrite lines_of_split. exact Ht.
+Qed.
+
+(* ---- the unguarded statement is false: three witnesses ---- *)
+Definition wit_fs : fsys :=
+  [([Str "r"; Str "has space.map"], Str "NAME 'x'");
+   ([Str "r"; Str "has"], Str "NAME 'wrong'");
+   ([Str "r"; Str "x.map"], Str "NAME 'y'")].
+
+(* a quoted name with a blank: the code opens the file named by the first word *)
+Lemma refute_quoted_blank :
+  load_includes wit_fs (Str "/r") (Str "INCLUDE ""has space.map""") (Some (Str "/r/root.map")) = Ok (Str "NAME 'wrong'") /\
+  expanded isspace (text_of wit_fs) (Str "/r") (Some (Str "/r/root.map")) (Str "INCLUDE ""has space.map""") = Ok (Str "NAME 'x'").
+Proof. split; vm_compute; reflexivity. Qed.
+
+Lemma refute_quoted_blank_missing :
+  load_includes [([Str "r"; Str "has space.map"], Str "NAME 'x'")] (Str "/r") (Str "INCLUDE ""has space.map""") (Some (Str "/r/root.map")) = Err PyIOError.
+Proof. vm_compute. reflexivity. Qed.
+
+(* a quoted name with a hash sign *)
+Lemma refute_quoted_hash :
+  load_includes [([Str "r"; Str "a#b.map"], Str "NAME 'x'")] (Str "/r") (Str "INCLUDE ""a#b.map""") None = Err PyIOError /\
+  expanded isspace (text_of [([Str "r"; Str "a#b.map"], Str "NAME 'x'")]) (Str "/r") None (Str "INCLUDE ""a#b.map""") = Ok (Str "NAME 'x'").
+Proof. split; vm_compute; reflexivity. Qed.
+
+(* INCLUDE without a name: IndexError instead of a text for the Mapfile parser to reject *)
+Lemma refute_bare_include :
+  load_includes wit_fs (Str "/r") (Str "INCLUDE") None = Err PyIndexError /\
+  expanded isspace (text_of wit_fs) (Str "/r") None (Str "INCLUDE") = Ok (Str "INCLUDE").
+Proof. split; vm_compute; reflexivity. Qed.
+
+(* a line that merely starts with the letters include is treated as a directive *)
+Lemma refute_prefix_keyword :
+  load_includes wit_fs (Str "/r") (Str "INCLUDES x.map") None = Ok (Str "NAME 'y'") /\
+  expanded isspace (text_of wit_fs) (Str "/r") None (Str "INCLUDES x.map") = Ok (Str "INCLUDES x.map").
+Proof. split; vm_compute; reflexivity. Qed.
+
+(* a name that itself consists of quote characters inside the other quotes *)
+Lemma refute_nested_quotes :
+  get_include_filename (Str "INCLUDE '""a.map""'") = Ok (Str "a.map") /\
+  directive isspace (Str "INCLUDE '""a.map""'") = Some (Str """a.map""").
+Proof. split; vm_compute; reflexivity. Qed.
+
+Theorem includes_are_substitution_refuted :
+  exists fs cwd text fn,
+    isabs cwd = true /\ load_includes fs cwd text fn <> expanded isspace (text_of fs) cwd fn text.
+Proof.
+  exists wit_fs, (Str "/r"), (Str "INCLUDE ""has space.map"""), (Some (Str "/r/root.map")).
+  split; [reflexivity|]. destruct refute_quoted_blank as [-> ->]. discriminate.
+Qed.
+
+Theorem filename_extraction_refuted :
+  exists l n, directive isspace l = Some n /\ get_include_filename l <> Ok n.
+Proof.
+  exists (Str "INCLUDE ""has space.map"""), (Str "has space.map"). split; vm_compute; [reflexivity|discriminate].
+Qed.
+
+(* ================================================================== *)
+(* H. working directory, expand_includes = False, front ends          *)
+(* ================================================================== *)
+
+Lemma isabs_folder_text fn : isabs fn = true -> isabs (folder_text fn) = true.
+Proof.
+  destruct fn as [|c r]; [discriminate|]. unfold isabs. cbn [startswith folder_text].
+  rewrite startswith_nil, andb_true_r. intros H. apply N.eqb_eq in H. subst c.
+  change 47 with c_slash. rewrite N.eqb_refl.
+  destruct (existsb (N.eqb c_slash) r); cbn [startswith]; rewrite N.eqb_refl; [rewrite startswith_nil|]; reflexivity.
+Qed.
+
+Lemma root_folder_abs cwd cwd' fn : isabs fn = true -> root_folder cwd (Some fn) = root_folder cwd' (Some fn).
+Proof.
+  intros H. cbn [root_folder]. rewrite !(locate_walk _ (folder_text fn)), isabs_folder_text by exact H.
+  reflexivity.
+Qed.
+
+Theorem cwd_irrelevant fs cwd cwd' text fn :
+  isabs fn = true -> isabs cwd = true -> isabs cwd' = true ->
+  load_includes fs cwd text (Some fn) = load_includes fs cwd' text (Some fn).
+Proof.
+  intros Hfn Hc Hc'. rewrite !includes_are_substitution_by_code_reader by assumption.
+  rewrite (root_folder_abs cwd cwd' fn Hfn). reflexivity.
+Qed.
+
+Theorem no_expand_stage fs cwd text fn : parse_text false fs cwd text fn = Ok text.
+Proof. reflexivity. Qed.
+
+Section FrontEnds.
+  Context {A : Type}.
+  Variable k : str -> res A.
+
+  (* with expand_includes = False nothing is read and the downstream parser sees the text itself *)
+  Theorem no_expand_front_ends fs cwd text name :
+    api_loads k false fs cwd text = k text /\ api_load k false fs cwd text name = k text.
+  Proof. split; reflexivity. Qed.
+
+  (* open(root) = loads(flattened text), whatever the working directory of the second call *)
+  Theorem open_equals_loads_of_flattened fs cwd fn root_text flat :
+    isabs cwd = true ->
+    open_file fs cwd fn = Ok root_text ->
+    load_includes fs cwd root_text (Some fn) = Ok flat ->
+    forall fs' cwd', api_open k true fs cwd fn = api_loads k true fs' cwd' flat.
+  Proof.
+    intros Hcwd Hopen Hflat fs' cwd'. unfold api_open, api_loads, parse_file, parse_text.
+    rewrite Hopen. cbn [bind]. rewrite Hflat. cbn [bind].
+    rewrite (expansion_is_fixed_point fs cwd root_text (Some fn) flat Hcwd Hflat fs' cwd' None).
+    reflexivity.
+  Qed.
+
+  (* load(fp) with a name behaves like open on the same text; loads uses the working directory *)
+  Theorem load_is_open_on_text fs cwd fn root_text :
+    open_file fs cwd fn = Ok root_text ->
+    api_open k true fs cwd fn = api_load k true fs cwd root_text (Some fn).
+  Proof. intros H. unfold api_open, api_load, parse_file, parser_load. rewrite H. reflexivity. Qed.
+End FrontEnds.
+
+(* ================================================================== *)
+(* I. the depth bound, stated for the model                            *)
+(* ================================================================== *)
+
+Theorem load_includes_Ok_iff fs cwd text fn :
+  isabs cwd = true ->
+  ((exists out, load_includes fs cwd text fn = Ok out) <->
+   depth_le (text_of fs) code_reader (root_folder cwd fn) 5 text).
+Proof.
+  intros Hcwd. rewrite includes_are_substitution_by_code_reader by exact Hcwd.
+  apply subst_by_Ok_iff.
+Qed.
+
+Lemma code_reader_Err l e : code_reader l = Some (Err e) -> e = PyIndexError.
+Proof.
+  unfold code_reader. destruct (starts_include l); [|discriminate]. intros [= H].
+  exact (get_include_filename_Err l e H).
+Qed.
+
+(* what an error of the model means *)
+Theorem load_includes_error_cause fs cwd text fn e :
+  isabs cwd = true ->
+  load_includes fs cwd text fn = Err e ->
+  e = PyValueError \/
+  (e = PyIOError /\ exists name, text_of fs (locate (root_folder cwd fn) name) = None) \/
+  (e = PyIndexError /\ exists l, starts_include l = true /\ get_include_filename l = Err PyIndexError).
+Proof.
+  intros Hcwd. rewrite includes_are_substitution_by_code_reader by exact Hcwd. intros H.
+  destruct (subst_by_errors _ _ _ _ _ _ H) as [->|[->|(l & Hl)]].
+  - left. reflexivity.
+  - right; left. split; [reflexivity|].
+    destruct (subst_by_IOError _ _ _ _ _ H) as [Hm|(l & Hl)]; [exact Hm|].
+    apply code_reader_Err in Hl. discriminate.
+  - right; right. pose proof (code_reader_Err l e Hl) as ->. split; [reflexivity|].
+    exists l. unfold code_reader in Hl. destruct (starts_include l); [|discriminate].
+    injection Hl as Hl. split; [reflexivity|exact Hl].
+Qed.
+
+(* deeper than five files, or cyclic: never a result, never out of fuel *)
+Theorem load_includes_too_deep fs cwd text fn :
+  isabs cwd = true ->
+  has_chain (text_of fs) code_reader (root_folder cwd fn) 6 text ->
+  exists e, load_includes fs cwd text fn = Err e /\
+            (e = PyValueError \/ e = PyIOError \/ e = PyIndexError).
+Proof.
+  intros Hcwd Hc. destruct (load_includes fs cwd text fn) as [out|e] eqn:E.
+  - exfalso. rewrite includes_are_substitution_by_code_reader in E by exact Hcwd.
+    exact (chain_exceeds_budget _ _ _ 5%nat text Hc out E).
+  - exists e. split; [reflexivity|]. exact (load_includes_never_out_of_fuel fs cwd text fn e E).
+Qed.
+
+Theorem load_includes_cyclic fs cwd text fn :
+  isabs cwd = true ->
+  cyclic (text_of fs) code_reader (root_folder cwd fn) text ->
+  exists e, load_includes fs cwd text fn = Err e /\
+            (e = PyValueError \/ e = PyIOError \/ e = PyIndexError).
+Proof. intros Hcwd Hc. apply load_includes_too_deep; [exact Hcwd|apply Hc]. Qed.
+
+(* when every named file exists and every name can be extracted, the error is ValueError *)
+Theorem load_includes_too_deep_ValueError fs cwd text fn :
+  isabs cwd = true ->
+  (forall name, text_of fs (locate (root_folder cwd fn) name) <> None) ->
+  (forall l, starts_include l = true -> get_include_filename l <> Err PyIndexError) ->
+  has_chain (text_of fs) code_reader (root_folder cwd fn) 6 text ->
+  load_includes fs cwd text fn = Err PyValueError.
+Proof.
+  intros Hcwd Hall Hnames Hc.
+  destruct (load_includes_too_deep fs cwd text fn Hcwd Hc) as (e & He & _).
+  destruct (load_includes_error_cause fs cwd text fn e Hcwd He) as [->|[(-> & name & Hn)|(-> & l & Hs & Hl)]].
+  - exact He.
+  - exfalso. exact (Hall name Hn).
+  - exfalso. exact (Hnames l Hs Hl).
+Qed.
+
+Lemma no_expand_open {A} (k : str -> res A) fs cwd fn :
+  api_open k false fs cwd fn = (do t <- open_file fs cwd fn; k t).
+Proof.
+  unfold api_open, parse_file, parse_text. destruct (open_file fs cwd fn); reflexivity.
+Qed.
